@@ -146,9 +146,13 @@ impl StdWriter {
 struct LockedWriter<'a>(&'a Mutex<BufWriter<StdStream>>);
 impl Write for LockedWriter<'_> {
     fn write(&mut self, buf: &[u8]) -> std::io::Result<usize> {
+        #[cfg(flexi_logger_verif)]
+        crate::verif_hooks::sync_op(crate::verif_hooks::Op::Point("std_buf_lock"));
         self.0.lock().map_err(|_e| io_err("Poison"))?.write(buf)
     }
     fn write_all(&mut self, buf: &[u8]) -> std::io::Result<()> {
+        #[cfg(flexi_logger_verif)]
+        crate::verif_hooks::sync_op(crate::verif_hooks::Op::Point("std_buf_lock"));
         self.0.lock().map_err(|_e| io_err("Poison"))?.write_all(buf)
     }
     fn flush(&mut self) -> std::io::Result<()> {
